@@ -37,6 +37,7 @@ MIXED = (MIXED + [chr(c) for c in range(0x61, 0x61 + 64)])[:64]
 UNKNOWN = [
     "", " ", "UNKNOWN", "crc-64-avro", "CRC-64", "CRC64", "rabin", "Md5", "md-5", "MD-5", "SHA256", "Sha256", "sha-256",
     "SHA-1", "SHA1", "SHA-512", "sha", "md4", "crc32", "adler32", "ripemd160 ", "sha256 ", " sha256", "sha256\n",
+    "{algorithm}", "{}", "{0}", "{1}", "sha{bits}", "${FINGERPRINT}", "%s", "%(algorithm)s", "{", "}", "{{}}", "sha256\x00", "\n", "md5;sha256",
 ]
 
 
